@@ -26,8 +26,15 @@ func c06Query(t *rapid.T, cmds []database.Command) (string, string) {
 	toks := gen.Tokens(cmds)
 	fromDB := rapid.SampledFrom(append([]string{"zzqx"}, toks...))
 	word := rapid.OneOf(fromDB, fromDB, rapid.SampledFrom(c06NLPWords), gen.Word(), gen.UWord(false))
-	kind := rapid.SampledFrom([]string{"short", "short", "medium", "long", "punct", "near-cap", "near-cap"}).Draw(t, "q-kind")
+	kind := rapid.SampledFrom([]string{"short", "short", "medium", "long", "punct", "near-cap", "near-cap", "long-built"}).Draw(t, "q-kind")
 	switch kind {
+	case "long-built":
+		// more than ten distinct content words: four database words first, then action / target words
+		// the language stage likes, then more database and unknown words
+		first := rapid.SliceOfNDistinct(fromDB, 4, 4, func(s string) string { return strings.ToLower(s) }).Draw(t, "first-four")
+		mid := rapid.SliceOfNDistinct(rapid.SampledFrom([]string{"copy", "file", "list", "directory", "delete", "find", "folder", "compress", "process", "show"}), 2, 4, func(s string) string { return s }).Draw(t, "action-target-words")
+		rest := rapid.SliceOfNDistinct(rapid.OneOf(fromDB, rapid.StringMatching(`[b-z]{4,7}`)), 6, 9, func(s string) string { return strings.ToLower(s) }).Draw(t, "rest")
+		return strings.Join(append(append(first, mid...), rest...), " "), kind
 	case "near-cap":
 		// 8-10 distinct content words: with the NLP additions the term list sits at the
 		// pruning cap, which is where a user's word could be crowded out
@@ -53,6 +60,9 @@ func TestC06_Retain(t *testing.T) {
 	p := nlp.NewQueryProcessor()
 	rapid.Check(t, func(t *rapid.T) {
 		cmds, cls := gen.DB(t, gen.CmdOpts{Platforms: true, Unicode: rapid.IntRange(0, 3).Draw(t, "u") == 0, Sized: true, Long: true}, []int{0, 1, 3, 10, 1, 1})
+		if len(cmds) >= 4 && rapid.IntRange(0, 3).Draw(t, "common-word") == 0 {
+			gen.Ubiquitous(t, cmds) // a word in nearly every entry: the least informative term there is
+		}
 		if rapid.Bool().Draw(t, "hint-pack") {
 			// commands named after the tools the NLP stage likes to suggest, so its hints are indexed terms
 			for _, h := range rapid.SliceOfNDistinct(rapid.SampledFrom(c06HintTools), 3, 10, func(s string) string { return s }).Draw(t, "hints") {
@@ -68,15 +78,14 @@ func TestC06_Retain(t *testing.T) {
 		}
 		f := false
 		opt := gen.Options(t, gen.OptSpec{N: len(cmds), BigLimit: true, FixFuzzy: &f, FixNLP: &f})
-		if opt.TopTermsCap != 0 && opt.TopTermsCap < 10 {
-			opt.TopTermsCap = 10
-		}
+		// the all-words clause is stated for the default pruning (ten terms); the first-four clause for every cap
+		defaultPruning := opt.TopTermsCap == 0 || opt.TopTermsCap >= 10
 		on := opt
 		on.UseNLP = true
 		offSet := idxSet(rank(db, db.SearchUniversal(q, opt)))
 		onSet := idxSet(rank(db, db.SearchUniversal(q, on)))
 		terms := ref.Tokenize(q)
-		if len(terms) <= 10 {
+		if len(terms) <= 10 && defaultPruning {
 			for i := range offSet {
 				if !onSet[i] {
 					t.Fatalf("entry #%d (%q) is returned with NLP off but lost with NLP on; query=%q content words=%v options=%v\n db=%v", i, cmds[i].Command, q, terms, optBrief(opt), gen.BriefDB(cmds, 12))
